@@ -18,6 +18,16 @@ Case kinds
   tree         : damaged content trees (duplicated / missing / foreign reference items, wrong template
                  ids, non-group containers): the tree is rendered item by item (model: run_tree_queries)
   fixture      : shipped sr_document*.dcm rendered as trees
+  report_codes : reports whose coded concepts (finding, sites, category, method, names ...) are drawn from few
+                 code values x {no scheme version, version 2.1, version 3.0} x {two scheme designators}, SNOMED
+                 members stored in SCT or retired SRT spelling; code filters = the exact code of a group, a sibling
+                 variant (must not match) or unused, given as Code or CodedConcept (independently of the stored
+                 class), in SCT / SRT spelling, with the stored or another code meaning (model: run_queries, the
+                 codes rendered as `ck value scheme version`)
+  acc_codes    : accessors of such groups; get_measurements / get_qualitative_evaluations by name where stored
+                 names and name arguments carry scheme versions (exact stored name or a sibling variant)
+In every kind a code returned by an accessor is numbered by what it compares EQUAL to (both operand orders,
+Code and CodedConcept) among the variants of its code value, not only by its attributes (code_id).
 """
 import copy
 import io
@@ -34,8 +44,10 @@ PROPS_FILE = 'C16_Props.v'
 COQ_IMPORTS = ['C16_Model']
 TOL = None
 ORACLE_PREMISES = [
-    'pydicom Code / highdicom CodedConcept equality and hashing restricted to the code alphabet used '
-    '(pairwise distinct value+scheme) is identity of the integer ids the model uses (C17 covers coded concepts)',
+    'pydicom Code / highdicom CodedConcept equality restricted to the code alphabet used is equality of the '
+    'triple (code value after SRT->SCT canonicalisation, scheme designator, scheme version) whatever the code '
+    'meaning and the operand classes; the model numbers the triples injectively (C16_code_key_is_code_equality), '
+    'the correspondence run checks that the implementation compares them that way (C17 covers coded concepts)',
     'pydicom save_as + highdicom srread reproduce the content tree (names, value types, relationship types, '
     'values, template identification) item for item - checked by the file round-trip cases, not proved',
     'template construction code beyond the modelled item skeleton (value validation, graphic data, units) '
@@ -49,14 +61,19 @@ MODELLED = ('sr/utils.find_content_items (non-recursive); sr/templates._count_ro
             'source_images, get_measurements, get_qualitative_evaluations) and the item skeleton the group '
             'constructors produce; content.py ReferencedSegment/ReferencedSegmentationFrame/VolumeSurface.from_sequence '
             '(classification of items only)')
-STRATA = ['report_mem', 'report_doc', 'report_file', 'report_notid', 'acc', 'refuse', 'tree', 'fixture']
+STRATA = ['report_mem', 'report_doc', 'report_file', 'report_notid', 'acc', 'refuse', 'tree', 'fixture',
+          'report_codes', 'acc_codes']
 RULE = ('reports of 0..5 groups (planar: 2D region of each graphic type, 3D region, segmentation frame, region in '
         'space; volumetric: 1..3 regions, segment with image/series sources, volume surface, region in space; '
         'image groups), values from small pools so that collisions between groups happen; per report 10 sampled '
         'subsets of the 7 filters (always the empty one and 4 singletons; thorough: every 25th report all 128 '
         'subsets) with values matching a random group, another group or nothing; x in memory / parsed from the '
         'in-memory dataset / written+srread x template ids kept / stripped; the whole abstract refusal table '
-        '(13 graphic types x 8 reference types x 4 uid combinations); damaged trees; shipped fixtures. '
+        '(13 graphic types x 8 reference types x 4 uid combinations); damaged trees; shipped fixtures; '
+        'report_codes / acc_codes: every coded concept drawn from few code values x {un-versioned, 2 scheme '
+        'versions} x {2 scheme designators} (+ SNOMED members in SCT / SRT spelling), code filters = exact code of '
+        'a group / sibling variant / unused, each also alone, given as Code or CodedConcept, with the stored or '
+        'another meaning; accessor codes identified by == against all variants. '
         'non-trivial = at least two groups and a non-empty, non-total answer or a refusal; distinct by case hash')
 NOT_EXECUTED = []
 EXHAUSTIVE = {'quick': False, 'thorough': False}
@@ -126,26 +143,90 @@ def uid_id(s):
     return int(s.rsplit('.', 1)[1])
 
 
-def code_of(z, as_hd=False):
+# ---- coded concepts: the model integer of a code is the key of (value, scheme, scheme version) ------------
+# key = base + KEYMUL * (scheme index + 10 * (0 if un-versioned else version index + 1))   (C16_Model.ck)
+SCHEMES = [USER_SCHEME, '99OTHER']
+VERSIONS = ['2.1', '3.0']
+KEYMUL = 100000
+# user codes that are real SNOMED concepts: id -> (SCT value, retired SRT value, meaning); pydicom compares
+# an SRT code through its SCT equivalent, so both spellings are the same concept
+SNOMED = {114: ('86049000', 'M-80003', 'Neoplasm, Primary'), 135: ('39607008', 'T-28000', 'Lung'),
+          136: ('10200004', 'T-62000', 'Liver')}
+SNOMED_BY_VALUE = {v[0]: k for k, v in SNOMED.items()}
+
+
+def ck(base, s=0, ver=None):
+    return base + KEYMUL * (s + 10 * (0 if ver is None else ver + 1))
+
+
+def ck_split(z):
+    q, base = divmod(z, KEYMUL)
+    vi, s = divmod(q, 10)
+    return base, s, (None if vi == 0 else vi - 1)
+
+
+def variants(z):
+    """every code of the alphabet with the same code value (other scheme version, other scheme)"""
+    base = ck_split(z)[0]
+    schemes = (0,) if base in RESERVED else (0, 1)
+    return [ck(base, s, v) for s in schemes for v in (None, 0, 1)]
+
+
+def code_of(z, as_hd=False, srt=False, alt=False):
+    """alphabet id -> Code / CodedConcept.  srt: retired SRT spelling of the SNOMED members;
+    alt: another code meaning (not part of the identity of a code)"""
     from pydicom.sr.coding import Code
     from highdicom.sr import CodedConcept
-    if z in RESERVED:
-        v, s, m = RESERVED[z]
+    base, si, ver = ck_split(z)
+    if base in RESERVED:
+        v, s, m = RESERVED[base]
+    elif base in SNOMED:
+        v, s, m = (SNOMED[base][1], 'SRT', SNOMED[base][2]) if srt else (SNOMED[base][0], 'SCT', SNOMED[base][2])
+        if si:
+            v, s = SNOMED[base][0], SCHEMES[si]
     else:
         # every third user code is longer than 16 characters (stored as LongCodeValue)
-        v, s, m = (str(z) if z % 3 else 'L' + '0' * 17 + str(z)), USER_SCHEME, f'concept {z}'
-    return CodedConcept(v, s, m) if as_hd else Code(v, s, m)
+        v, s, m = (str(base) if base % 3 else 'L' + '0' * 17 + str(base)), SCHEMES[si], f'concept {base}'
+    if alt:
+        m = 'said otherwise: ' + m
+    sv = None if ver is None else VERSIONS[ver]
+    return CodedConcept(v, s, m, sv) if as_hd else Code(v, s, m, sv)
 
 
-def code_id(c):
-    """Code / CodedConcept / code-sequence item -> model id"""
-    v = getattr(c, 'value', None)
-    s = getattr(c, 'scheme_designator', None)
-    if (v, s) in RES_BY_KEY:
-        return RES_BY_KEY[(v, s)]
-    if s == USER_SCHEME:
-        return int(str(v).lstrip('L'))
-    return None
+def code_key(value, scheme, version=None):
+    """(value, scheme designator, scheme version) as read from attributes -> alphabet id (None: foreign)"""
+    value, scheme = str(value), str(scheme)
+    if scheme == 'SRT':        # pydicom compares SRT codes through their SNOMED-CT equivalent
+        from pydicom.sr._snomed_dict import mapping
+        if value in mapping['SRT']:
+            value, scheme = mapping['SRT'][value], 'SCT'
+    if (value, scheme) in RES_BY_KEY:
+        base, si = RES_BY_KEY[(value, scheme)], 0
+    elif scheme == 'SCT' and value in SNOMED_BY_VALUE:
+        base, si = SNOMED_BY_VALUE[value], 0
+    elif scheme in SCHEMES:
+        si = SCHEMES.index(scheme)
+        base = SNOMED_BY_VALUE[value] if value in SNOMED_BY_VALUE else int(value.lstrip('L'))
+    else:
+        return None
+    if version in (None, ''):
+        return ck(base, si, None)
+    if str(version) not in VERSIONS:
+        return None
+    return ck(base, si, VERSIONS.index(str(version)))
+
+
+def code_id(c, hd=False):
+    """Code / CodedConcept returned by the implementation -> model id.  The id is read from the attributes
+    AND must be the one member of the alphabet with that code value the object compares equal to (both ways):
+    a group has to report a code that `==` the code it was constructed with, not only one that prints alike."""
+    z = code_key(getattr(c, 'value', None), getattr(c, 'scheme_designator', None), getattr(c, 'scheme_version', None))
+    if z is None:
+        return None
+    eq = [y for y in variants(z) if (c == code_of(y, hd)) and (code_of(y, not hd) == c)]
+    if eq == [z]:
+        return z
+    return ['code reads as', z, 'but compares equal to', eq]
 
 
 # ---------------------------------------------------------------------------------------------
@@ -366,6 +447,101 @@ def gen_cases(rng, tier):
     for name in ('sr_document.dcm', 'sr_document_with_multiple_groups.dcm'):
         for j in range(3 if tier == 'quick' else 12):
             cases.append({'kind': 'fixture', 'file': name, 'seed': rng.randint(0, 10**6), 'nf': 8})
+    # drawn last, so that the cases of the other kinds are the ones they were before this dimension existed
+    cases += _gen_code_cases(rng, tier)
+    return cases
+
+
+# ---- code variants: same code value in another scheme version / another scheme ----------------------------
+def _variant(rng, base):
+    """a code with value `base`: un-versioned, versioned (2 versions), other scheme (with / without version)"""
+    if base in RESERVED:
+        return ck(base, 0, rng.choice([None, 0, 1]))
+    return rng.choice([ck(base), ck(base), ck(base, 0, 0), ck(base, 0, 0), ck(base, 0, 1), ck(base, 1), ck(base, 1, 0)])
+
+
+def _codes_group(rng, g):
+    """re-draw every coded concept of a group from few code values x all variants, so that groups of one
+    report differ in nothing but the scheme version / designator of a code"""
+    v = lambda pool: _variant(rng, rng.choice(pool))  # noqa: E731
+    g = dict(g)
+    if g['finding'] is not None or rng.random() < 0.7:
+        g['finding'] = v([110, 110, 114])
+    g['sites'] = [v([130, 130, 135, 136]) for _ in g['sites']] or ([v([130, 135])] if rng.random() < 0.5 else [])
+    for key, pool in (('cat', [100]), ('method', [120]), ('geom', [170]), ('tp', [180])):
+        if g[key] is not None:
+            g[key] = v(pool)
+    # stored measurement / evaluation NAMES carry scheme versions too (D101: find_content_items used to drop them)
+    g['meas'] = [[v([140, 141]), val] for _, val in g['meas']]
+    g['evals'] = [[v([150, 151]), v([160, 114])] for _ in g['evals']]
+    g['srt'] = rng.random() < 0.3      # SNOMED members written in their retired SRT spelling
+    return g
+
+
+def _filters_codes(rng, groups, n):
+    """filter sets whose code filters are the exact code of a group, a sibling variant of it (same value, other
+    version / scheme: must NOT match) or an unused code; every code filter also alone"""
+    def near(z):
+        r = rng.random()
+        if z is None or r < 0.1:
+            return _variant(rng, rng.choice([110, 114, 130, 135, 119]))
+        if r < 0.6:
+            return z
+        return rng.choice([y for y in variants(z) if y != z])
+    out = [{}]
+    fs = [g['finding'] for g in groups if g['finding'] is not None]
+    ss = [x for g in groups for x in g['sites']]
+    for z in rng.sample(fs, min(2, len(fs))):
+        out += [{'finding': z}, {'finding': rng.choice([y for y in variants(z) if y != z])}]
+    for z in rng.sample(ss, min(2, len(ss))):
+        out += [{'site': z}, {'site': rng.choice([y for y in variants(z) if y != z])}]
+    while len(out) < n:
+        vals = _filter_values(rng, groups)
+        g = rng.choice(groups) if groups else None
+        vals['finding'] = near(g and g['finding'])
+        vals['site'] = near(g and (rng.choice(g['sites']) if g['sites'] else None))
+        if rng.random() < 0.15:         # a reference type given with a scheme version is not an allowed value
+            vals['reftype'] = ck(rng.choice(REFTYPES), 0, rng.choice([0, 1]))
+        r = rng.choice([1, 2, 2, 3, 4])
+        keys = set(rng.sample(FKEYS, r)) | {rng.choice(['finding', 'site'])}
+        out.append({k: vals[k] for k in FKEYS if k in keys})
+    return out
+
+
+def _gen_code_cases(rng, tier):
+    n = {'quick': 48, 'thorough': 400, 'search': 240}[tier]
+    cases = []
+    for j in range(n):
+        ng = rng.choice([1, 2, 3, 3, 4, 5])
+        notid = rng.choice([0.0, 0.0, 0.0, 1.0])
+        groups = [_codes_group(rng, _group(rng, i, notid=notid, allow_ris=False)) for i in range(ng)]
+        for g in groups:        # untyped groups stay classifiable (the ambiguity is exercised by report_notid)
+            if not g['has_tid'] and g['ref'][0] == 'rs' and len(g['ref'][1]) < 2:
+                g['ref'][1].append([g['ref'][1][0][0]] + _src(rng))
+        cases.append({'kind': 'report_codes', 'groups': groups, 'io': rng.choice(['mem', 'doc', 'file']),
+                      'pre': rng.choice(['person', 'device']), 'hd_codes': rng.random() < 0.5,
+                      'f_hd': rng.random() < 0.5, 'f_srt': rng.random() < 0.3, 'f_alt': rng.random() < 0.3,
+                      'filters': _filters_codes(rng, groups, 10)})
+    for j in range(n // 2):
+        ng = rng.choice([1, 2, 3])
+        groups = [_codes_group(rng, _group(rng, i, notid=rng.choice([0.0, 0.0, 1.0]), allow_ris=False))
+                  for i in range(ng)]
+        for g in groups:
+            if not g['has_tid'] and g['ref'][0] == 'rs' and len(g['ref'][1]) < 2:
+                g['ref'][1].append([g['ref'][1][0][0]] + _src(rng))
+        allnames = [m[0] for g in groups for m in g['meas']]
+        allev = [e[0] for g in groups for e in g['evals']]
+        # by-name arguments: the exact stored name (versioned or not) half of the time, else a sibling variant
+        def sib(l, d):
+            if not l:
+                return d
+            z = rng.choice(l)
+            return z if rng.random() < 0.5 else rng.choice(variants(z))
+        cases.append({'kind': 'acc_codes', 'groups': groups, 'io': rng.choice(['mem', 'file', 'doc']),
+                      'pre': 'person', 'hd_codes': rng.random() < 0.5,
+                      'f_hd': rng.random() < 0.5, 'f_srt': rng.random() < 0.3, 'f_alt': rng.random() < 0.3,
+                      'mname': sib(allnames, 149) if rng.random() < 0.85 else None,
+                      'ename': sib(allev, 159) if rng.random() < 0.85 else None})
     return cases
 
 
@@ -411,7 +587,7 @@ def _mk_sources(so):
 def _build_group(g, hd_codes):
     from highdicom import sr
     from pydicom.sr.codedict import codes
-    C = lambda z: code_of(z, hd_codes)  # noqa: E731
+    C = lambda z: code_of(z, hd_codes, srt=g.get('srt', False))  # noqa: E731
     kw = dict(
         tracking_identifier=sr.TrackingIdentifier(uid=tuid_str(g['tuid']), identifier=f"t{g['tid']}"),
         finding_type=None if g['finding'] is None else C(g['finding']),
@@ -660,9 +836,16 @@ def _apply_mutation(rep, m):
 # ---------------------------------------------------------------------------------------------
 # running the implementation
 # ---------------------------------------------------------------------------------------------
-def _py_filter(f, K, hd_codes=False):
+def _fopts(c):
+    """how the codes given as arguments are written: class (CodedConcept / Code; default: like the stored ones),
+    SRT spelling of SNOMED members, another code meaning"""
+    return {'hd': c.get('f_hd', c.get('hd_codes', False)), 'srt': c.get('f_srt', False), 'alt': c.get('f_alt', False)}
+
+
+def _py_filter(f, K, hd_codes=False, srt=False, alt=False):
     from highdicom.sr import GraphicTypeValues, GraphicTypeValues3D
     kw = {}
+    code_of = lambda z, hd: globals()['code_of'](z, hd, srt=srt, alt=alt)  # noqa: E731
     if 'tuid' in f:
         kw['tracking_uid'] = tuid_str(f['tuid'])
     if 'finding' in f:
@@ -688,10 +871,10 @@ def _tident(g):
     return None if t is None else int(str(t)[1:])
 
 
-def _query(rep, K, f, hd_codes=False):
+def _query(rep, K, f, hd_codes=False, srt=False, alt=False):
     fn = {'P': rep.get_planar_roi_measurement_groups, 'V': rep.get_volumetric_roi_measurement_groups,
           'I': rep.get_image_measurement_groups}[K]
-    return catch(lambda: [_tident(g) for g in fn(**_py_filter(f, K, hd_codes))])
+    return catch(lambda: [_tident(g) for g in fn(**_py_filter(f, K, hd_codes, srt, alt))])
 
 
 def _pairs(l):
@@ -708,17 +891,16 @@ def _sources_val(obj):
     return ['series', uid_id(obj.source_series_for_segmentation.value)]
 
 
-def _opt_code(c):
-    return None if c is None else code_id(c)
+def _accessors(g, K, mname, ename, hd_codes, srt=False, alt=False):
+    code_id = lambda c: globals()['code_id'](c, hd_codes)  # noqa: E731
+    _opt_code = lambda c: None if c is None else code_id(c)  # noqa: E731
 
-
-def _accessors(g, K, mname, ename, hd_codes):
     def mlist(name):
-        ms = g.get_measurements(name=None if name is None else code_of(name, hd_codes))
+        ms = g.get_measurements(name=None if name is None else code_of(name, hd_codes, srt, alt))
         return [[code_id(m.name), int(round(float(m.value)))] for m in ms]
 
     def elist(name):
-        es = g.get_qualitative_evaluations(name=None if name is None else code_of(name, hd_codes))
+        es = g.get_qualitative_evaluations(name=None if name is None else code_of(name, hd_codes, srt, alt))
         return [[code_id(e.name), code_id(e.value)] for e in es]
     out = [None if g.tracking_uid is None else uid_id(g.tracking_uid), _tident(g),
            _opt_code(g.finding_type), _opt_code(g.finding_category), _opt_code(g.method),
@@ -776,14 +958,15 @@ def run_impl(c):
     if k == 'fixture':
         return _run_fixture(c)[0]
     rep = _build_report(c)
-    hdc = c.get('hd_codes', False)
-    if k == 'acc':
+    fo = _fopts(c)
+    if k in ('acc', 'acc_codes'):
         out = []
         for K, fn in (('P', rep.get_planar_roi_measurement_groups), ('V', rep.get_volumetric_roi_measurement_groups),
                       ('I', rep.get_image_measurement_groups)):
-            out.append(catch(lambda: [_accessors(g, K, c['mname'], c['ename'], hdc) for g in fn()]))
+            out.append(catch(lambda: [_accessors(g, K, c['mname'], c['ename'], fo['hd'], fo['srt'], fo['alt'])
+                                      for g in fn()]))
         return out
-    return [[_query(rep, K, f, hdc) for K in 'PVI'] for f in c['filters']]
+    return [[_query(rep, K, f, fo['hd'], fo['srt'], fo['alt']) for K in 'PVI'] for f in c['filters']]
 
 
 # ---------------------------------------------------------------------------------------------
@@ -791,6 +974,18 @@ def run_impl(c):
 # ---------------------------------------------------------------------------------------------
 def oz(x):
     return 'None' if x is None else f'(Some {zlit(x)})'
+
+
+def cz(z):
+    """a coded concept of the alphabet as model term: plain number, or the key of (value, scheme, version)"""
+    if z is None or z < KEYMUL:
+        return zlit(z)
+    base, s, ver = ck_split(z)
+    return f"(ck {base} {s} {'None' if ver is None else f'(Some {ver})'})"
+
+
+def ocz(x):
+    return 'None' if x is None else f'(Some {cz(x)})'
 
 
 def _coq_sources(so):
@@ -820,10 +1015,12 @@ def _coq_ref(r):
 
 def _coq_group(g):
     kind = {'P': 'Planar', 'V': 'Volumetric', 'I': 'ImageK'}[g['k']]
-    pl = lambda l: '[' + '; '.join(f'({zlit(a)}, {zlit(b)})' for a, b in l) + ']'  # noqa: E731
-    return (f"(Group {kind} {g['tuid']} {g['tid']} {oz(g['cat'])} {oz(g['finding'])} {oz(g['method'])} "
-            f"{common.zl(g['sites'])} {_coq_ref(g['ref'])} {pl(g['meas'])} {pl(g['evals'])} "
-            f"{oz(g['geom'])} {oz(g['tp'])} {oz(g['session'])} {'true' if g['has_tid'] else 'false'})")
+    pm = lambda l: '[' + '; '.join(f'({cz(a)}, {zlit(b)})' for a, b in l) + ']'  # noqa: E731
+    pe = lambda l: '[' + '; '.join(f'({cz(a)}, {cz(b)})' for a, b in l) + ']'  # noqa: E731
+    sites = '[' + '; '.join(cz(x) for x in g['sites']) + ']'
+    return (f"(Group {kind} {g['tuid']} {g['tid']} {ocz(g['cat'])} {ocz(g['finding'])} {ocz(g['method'])} "
+            f"{sites} {_coq_ref(g['ref'])} {pm(g['meas'])} {pe(g['evals'])} "
+            f"{ocz(g['geom'])} {ocz(g['tp'])} {oz(g['session'])} {'true' if g['has_tid'] else 'false'})")
 
 
 def _coq_filter(f):
@@ -831,7 +1028,7 @@ def _coq_filter(f):
     if 'gt' in f:
         d, g = f['gt']
         gt = {'2': f'(G2 {g})', '3': f'(G3 {g})', 'bad': 'GBad'}[d]
-    return (f"(Filt {oz(f.get('tuid'))} {oz(f.get('finding'))} {oz(f.get('site'))} {oz(f.get('reftype'))} "
+    return (f"(Filt {oz(f.get('tuid'))} {ocz(f.get('finding'))} {ocz(f.get('site'))} {ocz(f.get('reftype'))} "
             f"{gt} {oz(f.get('inst'))} {oz(f.get('cls'))})")
 
 
@@ -847,16 +1044,17 @@ class _Ids:
         self.codes = {}
         self.uids = {}
 
-    def code(self, value, scheme):
+    def code(self, value, scheme, version=None):
         if scheme == 'SRT':        # pydicom compares SRT codes through their SNOMED-CT equivalent
             from pydicom.sr._snomed_dict import mapping
             if value in mapping['SRT']:
                 value, scheme = mapping['SRT'][value], 'SCT'
-        if (value, scheme) in RES_BY_KEY:
-            return RES_BY_KEY[(value, scheme)]
-        if scheme == USER_SCHEME:
-            return int(str(value).lstrip('L'))
-        return self.codes.setdefault((value, scheme), 5000 + len(self.codes))
+        version = None if version in (None, '') else str(version)
+        z = code_key(value, scheme, version)
+        if z is not None:
+            return z
+        # foreign code (or foreign scheme version): a number of its own per (value, scheme, version)
+        return self.codes.setdefault((value, scheme, version), 5000 + len(self.codes))
 
     def uid(self, s):
         s = str(s)
@@ -876,7 +1074,7 @@ class _Ids:
 
 def _code_item_ids(ids, seq_item):
     v = seq_item.get('CodeValue') or seq_item.get('LongCodeValue') or seq_item.get('URNCodeValue')
-    return ids.code(str(v), str(seq_item.CodingSchemeDesignator))
+    return ids.code(str(v), str(seq_item.CodingSchemeDesignator), seq_item.get('CodingSchemeVersion'))
 
 
 def render_item(ids, ds, depth):
@@ -927,8 +1125,8 @@ def coq_term(c):
         return _tree_term(_build_report(c2), c['filters'])
     gs = '[' + '; '.join(_coq_group(g) for g in c['groups']) + ']'
     pre = PRE_ITEMS if c.get('pre') == 'library' else '[]'
-    if k == 'acc':
-        return f"(run_accessors {pre} {gs} {oz(c['mname'])} {oz(c['ename'])})"
+    if k in ('acc', 'acc_codes'):
+        return f"(run_accessors {pre} {gs} {ocz(c['mname'])} {ocz(c['ename'])})"
     fs = '; '.join(f'run_queries pre gs {_coq_filter(f)}' for f in c['filters'])
     return f'(let gs := {gs} in let pre := {pre} in VL [{fs}])'
 
@@ -1001,8 +1199,9 @@ def _run_fixture(c):
                 mf[key] = ids.uid(v)
             elif tag == 'raw':
                 cv = v.get('CodeValue') or v.get('LongCodeValue') or v.get('URNCodeValue')
-                kw[pyk] = Code(str(cv), str(v.CodingSchemeDesignator), str(v.CodeMeaning))
-                mf[key] = ids.code(str(cv), str(v.CodingSchemeDesignator))
+                kw[pyk] = Code(str(cv), str(v.CodingSchemeDesignator), str(v.CodeMeaning),
+                               v.get('CodingSchemeVersion') or None)
+                mf[key] = ids.code(str(cv), str(v.CodingSchemeDesignator), v.get('CodingSchemeVersion'))
             elif tag == 'id':
                 kw[pyk] = code_of(v)
                 mf[key] = v
@@ -1171,9 +1370,9 @@ def _check_acc(c, out):
 
 def oracle(c, out):
     k = c['kind']
-    if k in ('report_mem', 'report_doc', 'report_file', 'report_notid', 'refuse'):
+    if k in ('report_mem', 'report_doc', 'report_file', 'report_notid', 'refuse', 'report_codes'):
         return _check_queries(c, out)
-    if k == 'acc':
+    if k in ('acc', 'acc_codes'):
         return _check_acc(c, out)
     if k == 'fixture':
         # unfiltered queries partition the measurement groups of the shipped documents
@@ -1200,7 +1399,7 @@ def oracle(c, out):
 
 def nontrivial(c, out):
     k = c['kind']
-    if k in ('acc',):
+    if k in ('acc', 'acc_codes'):
         return len(c['groups']) >= 2
     if k == 'fixture':
         return True
